@@ -2,10 +2,11 @@
 (* Trace validation for byte-order conversion: every recorded chain of conversions   *)
 (* executed on real numpy arrays is judged step by step by the property-level        *)
 (* clauses of ByteOrder.tla.  One ndjson line per chain:                              *)
-(*   {"id": k, "kinds": [...], "spell": "<", "ops": [{"fn","inplace","keep"}, ...],   *)
-(*    "st": [state_0, ..., state_n]}                                                  *)
+(*   {"id": k, "kinds": [...], "spell": "<", "layout": "strided", "plain": false,     *)
+(*    "ops": [{"fn","inplace","keep"}, ...], "st": [state_0, ..., state_n]}           *)
 (*   state = {"res": i, "err": "none"|class, "arrs": [{"decl","phys","sig","shp",     *)
-(*            "grp","hash"}, ...], "pred": {...}, "dn": [...]}                        *)
+(*            "grp","hash"}, ...], "rest": "intact"|"changed", "pred": {...},         *)
+(*            "dn": [...]}  (state_0 also has "lay": the observed layout flags)       *)
 (* state_k is the projection of the real arrays after step k; a step is judged        *)
 (* against the OBSERVED previous state, so one wrong step yields one rejection.       *)
 (* Failing clauses are printed as "<step>:<clause>" (step 0 = the initial array).     *)
@@ -31,7 +32,7 @@ FailingRec(r) ==
     LET K == r.kinds
         n == Len(r.ops)
         StepF(k) == BOStepFailing(K, r.st[k], r.ops[k], r.st[k + 1])
-    IN Tag(0, BOInitFailing(K, r.spell, r.st[1]) \cup ObsFailing(K, r.st[1])) \cup
+    IN Tag(0, BOInitFailing(K, r.spell, r.layout, r.plain, r.st[1]) \cup ObsFailing(K, r.st[1])) \cup
        UNION {Tag(k, StepF(k) \cup ObsFailing(K, r.st[k + 1]) \cup
                      (IF k >= 2 /\ StepF(k) = {} /\ StepF(k - 1) = {}
                       THEN BOPairFailing(K, r.st[k - 1], r.ops[k - 1], r.st[k], r.ops[k], r.st[k + 1])
